@@ -113,6 +113,8 @@ def gen_structure(rng, nF, nS):
 def gen_window(rng, card):
     low = rng.choice([0, 0, 1, -20, 50])
     pop = rng.choice([max(card - 1, 0), card, card, card + 3, 1000, 40])
+    if rng.random() < 0.1:                        # wide bounds: candidate ranges around and beyond 2^16 values
+        pop = rng.choice([65535, 65536, 65537, 70000, 200000])
     return low, low + pop - 1
 
 
